@@ -35,6 +35,7 @@ for _n in ("bitwise_lshift", "bitwise_rshift", "rotl", "rotr"):
 for _n in ("sqrt", "bitofsign", "sign", "signnz", "ceil", "floor", "trunc", "round", "nearbyint", "rint"):
     op(_n, "xsimd::%s(a)" % _n, "B", FLOAT_TYPES)
 op("copysign", "xsimd::copysign(a, b)", "BB", FLOAT_TYPES)
+op("nextafter", "xsimd::nextafter(a, b)", "BB", FLOAT_TYPES)
 op("clip", "xsimd::clip(a, b, c)", "BBB", ALL_TYPES)
 for _n in ("isnan", "isinf", "isfinite", "is_flint", "is_even", "is_odd"):
     op(_n, "xsimd::%s(a)" % _n, "B", FLOAT_TYPES, "M")
